@@ -11,7 +11,7 @@ THEOREMS = ["Folang.Sem.lower_correct", "Folang.Sem.lower_correct_output", "Fola
 ASSUMPTIONS = [
     "PARTIAL. Proved (Props/Sim.lean): lower_correct — the lowering scheme (if -> frt.IfElse thunks, if-only -> frt.IfOnly, partial application -> closure, pipe -> frt.Pipe, match -> type switch / immediately invoked func literal, let -> :=) preserves the output of every well-formed core program, for the reference semantics the oracle runs; tinyfo's emitter is tied to that lowering model on every run by reading the Go it really emits back with go/parser (stream sem.lower: must EQUAL lowerB of the abstract function, types erased). The behavioural statement for the real tinyfo (its parser, its type printing) is not proved end to end. Also proved for all inputs: tinyfo's operator loop is precedence climbing and groups every chain of the shared operators exactly as fc does (tiny_is_climb, tiny_eq_group, tiny_agrees_with_fc over tables_agree / group_congr); the runtime mechanisms tinyfo lowers to (frt.IfElse / IfOnly thunks, frt.Pipe) and the closure lowering of partial application are the C14 / C01 theorems",
     "tie: facts regenerated from tinyfo/parser.go on every run (binOpMap, the two uses of .precedence, minPrec = 1); the tinyfo binary is rebuilt from the working tree; programs of the tinyfo profile of the C01 generator go through the real tinyfo binary and through fc in-process, both outputs are compiled and run; tinyfo's stdout is compared with the Lean reference evaluator (stream c01.prog) and with fc's stdout",
-    "the tinyfo profile (harness/fcdrv/tiny.go): annotated functions, int/string/bool expressions with + - comparisons && || not = <>, if/elif/else and if-only, non-generic records and unions with match (binders, _, default), slices (non-empty literals, parenthesised in argument position), pairs and destructuring, pipes, partial application (effect-free given arguments, D9), let-bound partial applications called later, package_info declarations of frt / slice / strings functions. A plain-layout program of this profile that tinyfo rejects is reported; under decorated layouts (thorough tier) rejections are counted only",
+    "the tinyfo profile (harness/fcdrv/tiny.go): annotated functions, int/string/bool expressions with + - comparisons && || not = <>, if/elif/else and if-only, non-generic records and unions with match (binders, _, default), slices (non-empty literals, parenthesised in argument position), pairs and destructuring, pipes, partial application (effect-free given arguments: tinyfo keeps them inside the closure, the behaviour that was defect D9 of fc; the lowering model in tinyfo mode, streams sem.progT / sem.lowerT), let-bound partial applications called later, package_info declarations of frt / slice / strings functions. A plain-layout program of this profile that tinyfo rejects is reported; under decorated layouts (thorough tier) rejections are counted only",
     "the reference semantics (Oracle/FSem.lean, executable Lean) is trusted as the meaning of the abstract programs; the generator renders them to text",
 ]
 
